@@ -252,6 +252,9 @@ impl Stats {
         }
         *self.classes.lock().entry(class.to_string()).or_insert(0) += 1;
     }
+    pub fn count_n(&self, class: &str, n: u64) {
+        *self.classes.lock().entry(class.to_string()).or_insert(0) += n;
+    }
     /// record one evaluated case; `nontrivial` by the property's rule; `hash` canonical case hash
     pub fn case(&self, hash: u64, nontrivial: bool, sample: impl FnOnce() -> serde_json::Value) {
         if self.frozen.load(Ordering::Relaxed) {
